@@ -301,5 +301,20 @@ func (e *Engine) writeExpected(prop string, rs []*FnResult) error {
 		}
 	}
 	sort.Strings(names)
+	// report what disappears relative to the previous record (regenerating must not hide a loss)
+	if b, err := os.ReadFile(filepath.Join(e.verifDir, "expected", prop+".json")); err == nil {
+		var old expectedFile
+		if json.Unmarshal(b, &old) == nil {
+			have := map[string]bool{}
+			for _, n := range names {
+				have[n] = true
+			}
+			for _, n := range old.Obligations {
+				if !have[n] {
+					fmt.Printf("expected/%s.json: obligation no longer generated or no longer discharged: %s\n", prop, n)
+				}
+			}
+		}
+	}
 	return jsonWrite(filepath.Join(e.verifDir, "expected", prop+".json"), expectedFile{prop, names})
 }
